@@ -1,31 +1,219 @@
 /* Conformance driver for the text codecs (C14/C12).  Protocol: one case per stdin line,
- *   <op> <hex-input|-> <capacity> [extra]      ->   "<op> rc=<rc> n=<reported> out=<hex|->"
- * Input and output live in exact-size heap blocks (ASan build) so overruns are observed. */
+ *   <op> <hex-input|-> <capacity> [x1 [x2]]     ->   "<op> rc=<rc> n=<reported> out=<hex|-> guard=<ok|lo|hi> [v=<hex64>]"
+ * Input and output live in exact-size heap blocks (ASan build) so overruns are observed.
+ * The driver computes nothing about the expected result; it only calls the library and prints what came back.
+ *
+ *   b64enc b64dec b64decfmt b64encopy        base64_encode / _decode / _decode_fmt / _en_copy
+ *   bin2hex hex2bin                          cvt_bin2hex(auto=1) / cvt_hex2bin(auto=0)
+ *   xmlenc xmldec                            xml_encode / xml_decode
+ *   urldec                                   http_url_decode
+ *   numfmt   <hex64 value> cap t f           <t>2str (f=0) / <t>2ustr (f=1), t = 0..9 (u8 u16 u32 u64 usize s8 ..)
+ *   numparse <text> 0 t f                    str2<t> / ustr2<t>          -> v = value, sign-extended to 64 bit
+ *   numparseh <text> 0 t f                   strh2<t> / ustrh2<t>
+ *   crcraw  <data> 0 tbl variant init        crc32_{normal,reflect}{4,8,auto} with table tbl, start value init
+ *   crcname <data> 0 model split             the named macro on the whole input and, chained with the
+ *                                            matching *_update macro, on data[0..split) + data[split..)
+ */
 #include <sys/param.h>
 #include <sys/types.h>
 #include <inttypes.h>
 #include <errno.h>
 #include "vh_util.h"
 #include "utils/base64.h"
+#include "utils/num2str.h"
+#include "utils/str2num.h"
+#include "utils/strh2num.h"
+#include "utils/buf_str.h"
+#include "utils/xml.h"
+#include "proto/http.h"
+#include "math/crc32.h"
+
+/* Output block.  ASan builds: an exact-size malloc block (red zones on both sides, ASan reports the access).
+ * Other builds: the block sits between two 64-byte margins filled with 0xA5 that are inspected after the
+ * call, so a stray store is attributed to the case that made it instead of corrupting the allocator. */
+#if defined(__SANITIZE_ADDRESS__)
+#  define VH_ASAN 1
+#elif defined(__has_feature)
+#  if __has_feature(address_sanitizer)
+#    define VH_ASAN 1
+#  endif
+#endif
+#define MARGIN 64
+static uint8_t *out_base;
+static uint8_t *out_alloc(size_t cap) {
+#ifdef VH_ASAN
+	out_base = vh_buf(cap);
+	return out_base;
+#else
+	out_base = vh_buf(cap + 2 * MARGIN);
+	return out_base + MARGIN;
+#endif
+}
+static const char *out_guard(size_t cap) {
+#ifndef VH_ASAN
+	for (size_t i = 0; i < MARGIN; i++) if (out_base[i] != 0xA5) return "lo";
+	for (size_t i = 0; i < MARGIN; i++) if (out_base[MARGIN + cap + i] != 0xA5) return "hi";
+#endif
+	(void)cap;
+	return "ok";
+}
+
+static int num_fmt(int t, int f, uint64_t v, uint8_t *out, size_t cap, size_t *rep) {
+	char *c = (char *)out;
+	switch (t * 2 + f) {
+	case 0: return u82str((uint8_t)v, c, cap, rep);
+	case 1: return u82ustr((uint8_t)v, out, cap, rep);
+	case 2: return u162str((uint16_t)v, c, cap, rep);
+	case 3: return u162ustr((uint16_t)v, out, cap, rep);
+	case 4: return u322str((uint32_t)v, c, cap, rep);
+	case 5: return u322ustr((uint32_t)v, out, cap, rep);
+	case 6: return u642str((uint64_t)v, c, cap, rep);
+	case 7: return u642ustr((uint64_t)v, out, cap, rep);
+	case 8: return usize2str((size_t)v, c, cap, rep);
+	case 9: return usize2ustr((size_t)v, out, cap, rep);
+	case 10: return s82str((int8_t)(int64_t)v, c, cap, rep);
+	case 11: return s82ustr((int8_t)(int64_t)v, out, cap, rep);
+	case 12: return s162str((int16_t)(int64_t)v, c, cap, rep);
+	case 13: return s162ustr((int16_t)(int64_t)v, out, cap, rep);
+	case 14: return s322str((int32_t)(int64_t)v, c, cap, rep);
+	case 15: return s322ustr((int32_t)(int64_t)v, out, cap, rep);
+	case 16: return s642str((int64_t)v, c, cap, rep);
+	case 17: return s642ustr((int64_t)v, out, cap, rep);
+	case 18: return ssize2str((ssize_t)v, c, cap, rep);
+	case 19: return ssize2ustr((ssize_t)v, out, cap, rep);
+	}
+	return -2;
+}
+static uint64_t num_parse(int t, int f, const uint8_t *s, size_t n) {
+	const char *c = (const char *)s;
+	switch (t * 2 + f) {
+	case 0: return str2u8(c, n);
+	case 1: return ustr2u8(s, n);
+	case 2: return str2u16(c, n);
+	case 3: return ustr2u16(s, n);
+	case 4: return str2u32(c, n);
+	case 5: return ustr2u32(s, n);
+	case 6: return str2u64(c, n);
+	case 7: return ustr2u64(s, n);
+	case 8: return str2usize(c, n);
+	case 9: return ustr2usize(s, n);
+	case 10: return (uint64_t)(int64_t)str2s8(c, n);
+	case 11: return (uint64_t)(int64_t)ustr2s8(s, n);
+	case 12: return (uint64_t)(int64_t)str2s16(c, n);
+	case 13: return (uint64_t)(int64_t)ustr2s16(s, n);
+	case 14: return (uint64_t)(int64_t)str2s32(c, n);
+	case 15: return (uint64_t)(int64_t)ustr2s32(s, n);
+	case 16: return (uint64_t)str2s64(c, n);
+	case 17: return (uint64_t)ustr2s64(s, n);
+	case 18: return (uint64_t)(int64_t)str2ssize(c, n);
+	case 19: return (uint64_t)(int64_t)ustr2ssize(s, n);
+	}
+	return 0xdeadbeefdeadbeefull;
+}
+static uint64_t num_parseh(int t, int f, const uint8_t *s, size_t n) {
+	const char *c = (const char *)s;
+	switch (t * 2 + f) {
+	case 0: return strh2u8(c, n);
+	case 1: return ustrh2u8(s, n);
+	case 2: return strh2u16(c, n);
+	case 3: return ustrh2u16(s, n);
+	case 4: return strh2u32(c, n);
+	case 5: return ustrh2u32(s, n);
+	case 6: return strh2u64(c, n);
+	case 7: return ustrh2u64(s, n);
+	case 8: return strh2usize(c, n);
+	case 9: return ustrh2usize(s, n);
+	case 10: return (uint64_t)(int64_t)strh2s8(c, n);
+	case 11: return (uint64_t)(int64_t)ustrh2s8(s, n);
+	case 12: return (uint64_t)(int64_t)strh2s16(c, n);
+	case 13: return (uint64_t)(int64_t)ustrh2s16(s, n);
+	case 14: return (uint64_t)(int64_t)strh2s32(c, n);
+	case 15: return (uint64_t)(int64_t)ustrh2s32(s, n);
+	case 16: return (uint64_t)strh2s64(c, n);
+	case 17: return (uint64_t)ustrh2s64(s, n);
+	case 18: return (uint64_t)(int64_t)strh2ssize(c, n);
+	case 19: return (uint64_t)(int64_t)ustrh2ssize(s, n);
+	}
+	return 0xdeadbeefdeadbeefull;
+}
+
+static const uint32_t *crc_t256[5] = { crc32_tbl256_04c11db7, crc32_tbl256_edb88320, crc32_tbl256_1edc6f41,
+	crc32_tbl256_a833982b, crc32_tbl256_814141ab };
+/* normal tables: "no additional 16 table required, first 16 items used" (crc32.h) */
+static const uint32_t *crc_t16[5] = { crc32_tbl256_04c11db7, crc32_tbl16_edb88320, crc32_tbl16_1edc6f41,
+	crc32_tbl16_a833982b, crc32_tbl256_814141ab };
+static const int crc_refl[5] = { 0, 1, 1, 1, 0 };
+
+static uint32_t crc_raw(int tbl, int variant, uint32_t init, const uint8_t *d, size_t n) {
+	if (crc_refl[tbl]) {
+		if (variant == 4) return crc32_reflect4(crc_t16[tbl], init, d, n);
+		if (variant == 8) return crc32_reflect8(crc_t256[tbl], init, d, n);
+		return crc32_reflect(crc_t256[tbl], crc_t16[tbl], init, d, n);
+	}
+	if (variant == 4) return crc32_normal4(crc_t256[tbl], init, d, n);
+	if (variant == 8) return crc32_normal8(crc_t256[tbl], init, d, n);
+	return crc32_normal(crc_t256[tbl], init, d, n);
+}
+static void crc_named(int m, const uint8_t *d, size_t n, size_t k, uint32_t *whole, uint32_t *chained) {
+	uint32_t c;
+	switch (m) {
+	case 0: *whole = crc32a(d, n); c = crc32a(d, k); *chained = crc32a_update(c, d + k, n - k); break;
+	case 1: *whole = crc32cksum(d, n); c = crc32cksum(d, k); *chained = crc32cksum_update(c, d + k, n - k); break;
+	case 2: *whole = crc32mpeg2(d, n); c = crc32mpeg2(d, k); *chained = crc32mpeg2_update(c, d + k, n - k); break;
+	case 3: *whole = crc32b(d, n); c = crc32b(d, k); *chained = crc32b_update(c, d + k, n - k); break;
+	case 4: *whole = crc32jamcrc(d, n); c = crc32jamcrc(d, k); *chained = crc32jamcrc_update(c, d + k, n - k); break;
+	case 5: *whole = crc32c(d, n); c = crc32c(d, k); *chained = crc32c_update(c, d + k, n - k); break;
+	case 6: *whole = crc32d(d, n); c = crc32d(d, k); *chained = crc32d_update(c, d + k, n - k); break;
+	case 7: *whole = crc32q(d, n); c = crc32q(d, k); *chained = crc32q_update(c, d + k, n - k); break;
+	default: *whole = *chained = 0xdeadbeef;
+	}
+}
 
 int main(void) {
-	char line[1 << 16], op[64], hex[1 << 15];
-	long cap;
+	static char line[1 << 17], op[64], hex[1 << 16], x3s[64];
+	long cap, x1, x2;
 	vh_install_fault_handler();
 	while (fgets(line, sizeof(line), stdin)) {
-		if (sscanf(line, "%63s %32767s %ld", op, hex, &cap) != 3) continue;
+		x1 = x2 = 0; x3s[0] = 0;
+		if (sscanf(line, "%63s %65535s %ld %ld %ld %63s", op, hex, &cap, &x1, &x2, x3s) < 3) continue;
 		vh_set_tag(line);
+		alarm(20);
 		size_t n, rep = (size_t)-1;
 		uint8_t *in = vh_unhex(hex, &n);
-		uint8_t *out = vh_buf((size_t)cap);
-		int rc = -1;
+		uint8_t *out = out_alloc((size_t)cap);
+		int rc = -1, have_v = 0;
+		uint64_t v = 0, v2 = 0;
 		if (!strcmp(op, "b64enc")) rc = base64_encode(in, n, out, (size_t)cap, &rep);
 		else if (!strcmp(op, "b64dec")) rc = base64_decode(in, n, out, (size_t)cap, &rep);
 		else if (!strcmp(op, "b64decfmt")) rc = base64_decode_fmt(in, n, out, (size_t)cap, &rep);
+		else if (!strcmp(op, "b64encopy")) rc = base64_en_copy(in, out, n, &rep);
+		else if (!strcmp(op, "bin2hex")) rc = cvt_bin2hex(in, n, 1, out, (size_t)cap, &rep);
+		else if (!strcmp(op, "hex2bin")) rc = cvt_hex2bin(in, n, 0, out, (size_t)cap, &rep);
+		else if (!strcmp(op, "xmlenc")) rc = xml_encode(in, n, out, (size_t)cap, &rep);
+		else if (!strcmp(op, "xmldec")) rc = xml_decode(in, n, out, (size_t)cap, &rep);
+		else if (!strcmp(op, "urldec")) { rep = http_url_decode(in, n, out, (size_t)cap); rc = 0; }
+		else if (!strcmp(op, "numfmt")) {
+			uint64_t val = 0;
+			for (size_t i = 0; i < n; i++) val = (val << 8) | in[i];
+			rc = num_fmt((int)x1, (int)x2, val, out, (size_t)cap, &rep);
+		}
+		else if (!strcmp(op, "numparse")) { v = num_parse((int)x1, (int)x2, in, n); have_v = 1; rc = 0; rep = 0; }
+		else if (!strcmp(op, "numparseh")) { v = num_parseh((int)x1, (int)x2, in, n); have_v = 1; rc = 0; rep = 0; }
+		else if (!strcmp(op, "crcraw")) {
+			v = crc_raw((int)x1, (int)x2, (uint32_t)strtoul(x3s, NULL, 16), in, n); have_v = 1; rc = 0; rep = 0;
+		}
+		else if (!strcmp(op, "crcname")) {
+			uint32_t w, c;
+			crc_named((int)x1, in, n, (size_t)x2, &w, &c); v = w; v2 = c; have_v = 2; rc = 0; rep = 0;
+		}
+		alarm(0);
 		printf("%s rc=%d n=%zd out=", op, rc, (ssize_t)rep);
 		vh_puthex(out, (rc == 0 && rep != (size_t)-1 && rep <= (size_t)cap) ? rep : 0);
+		printf(" guard=%s", out_guard((size_t)cap));
+		if (have_v) printf(" v=%016" PRIx64, v);
+		if (have_v == 2) printf(" v2=%016" PRIx64, v2);
 		printf("\n");
-		vh_buf_free(in); vh_buf_free(out);
+		vh_buf_free(in); vh_buf_free(out_base);
 	}
 	return 0;
 }
